@@ -77,7 +77,8 @@ class EntryView(object):
                         self.family.append(c)
                 except Exception:
                     continue
-        self.roles = set(k for k, v in ROLE_TABLE.items() if (APP, 'Application') in v)
+        from .noninterf import role_classes
+        self.roles = set(k for k in ROLE_TABLE if base in role_classes(repo, k))       # (the class by definition, wherever it lives)
 
     # -- what may be an application ------------------------------------------------------------------------------------
     def _enclosing_class(self, fi):
